@@ -145,6 +145,13 @@ func (c *Case) options() *benchseries.BuilderOptions {
 	f := ".unit:/.*/"
 	if c.FilterUnit >= 0 {
 		f = ".unit:" + strconv.Quote(c.Units[c.FilterUnit])
+		// the same selection written as a conjunction of two per-measurement terms
+		switch len(c.Lines) % 3 {
+		case 1:
+			f = ".unit:/./ " + f
+		case 2:
+			f = f + " AND -.unit:/^pad/ .unit:/./"
+		}
 	}
 	return &benchseries.BuilderOptions{
 		Filter: f, Series: keySer, Table: strings.Join(c.TabKeys, ","), Experiment: keyExp, Compare: keyRole,
@@ -967,6 +974,7 @@ func trunc(s string, n int) string {
 var unitPool = []string{"B/op", "allocs/op", "widgets", "x-score"}
 var benchPool = []string{"Foo", "Foo-8", "Bar/n=1-8", "Bar/n=10-8", "Baz", "Qux/sub/k=v"}
 var tabKeyPool = []string{"goarch", "goos"}
+
 // (values of the two keys never coincide: the table label lists values only; "a"+"bc" and "ab"+"c"
 // concatenate alike; "" = the result lacks the key)
 var tabValPool = [][]string{{"amd64", "arm64", "riscv64", "a", "ab", ""}, {"linux", "darwin", "plan9", "bc", "c", ""}}
